@@ -460,6 +460,20 @@ _ROUND10 = {
     "C10": " Attribute, key/value and context-key lists may be empty (With(), WithAttrs(), WithContextKeys(): still a new child).",
     "C17": " Custom short tags may have any length (a given tag is used as given).",
 }
+_ROUND11 = {
+    "C01": " In half of the cases (and in extra cells of the exhaustive matrix) the logger answers Enabled questions and prints records BEFORE each change of the debug mode: what it remembers of its answers is then out of date.",
+    "C03": " A history may register one more level for the error device in the middle (step register), sandwiched by probes at that level on a logger that has logged already.",
+    "C04": " Before the record under test: the same record printed in the other formats (1 case of 4), a record whose loose pairs repeat a key (1 of 6); a logger with own attributes prints the record twice and the second one is judged.",
+    "C05": " Before the record under test: the same record printed in the other formats (1 case of 4), a record whose loose pairs repeat a key (1 of 6); a logger with own attributes prints the record twice and the second one is judged.",
+    "C09": " Probes may be ordinary calls with loose key/value pairs (year-only time layout) instead of handed-through records; histories contain records whose loose pairs repeat a key.",
+    "C13": " Between the faulty phase and the suffix a destination may be withdrawn with the matching Remove call (it must get nothing afterwards) and the logger's level may change (the suffix is judged under the new one).",
+    "C14": " With a late SetSkip, records may go through the logger, the handler, a derived handler and the bridge BEFORE the skip count changes.",
+    "C15": " The process-wide debug mode may change between two records of one handler (is.SetDebugMode, or another logger's SetLevel(Debug)).",
+    "C16": " In a third of the cases the logger prints records in all three formats before its zone mode and layout are set in place.",
+    "C18": " The generated paths are also asked about INSIDE the SaveFlagsAndMod scopes through which the flags are set (other privacy flags in force there).",
+}
+for _pid, _txt in _ROUND11.items():
+    _ROUND9[_pid] = _ROUND9.get(_pid, "") + _txt
 for _pid, _txt in _ROUND10.items():
     _ROUND9[_pid] = _ROUND9.get(_pid, "") + _txt
 for _pid, _txt in _ROUND9.items():
